@@ -370,14 +370,16 @@ def run_history(cname, arr, mt, rows, ops, case, probe=True):
     ambiguous = False
 
     def fail(core, msg):
-        after = ""
-        if prev:
-            after = f" after {prev}"
-            if probe:
-                r = run_history(cname, st["arr"], st["mt"], st["rows"], [raw], case, probe=False)
-                if r[0] == "fail" and r[1] == f"{cname}/{cls}/{core}":
-                    after = ""
-        return ("fail", f"{cname}/{cls}/{core}{after}", msg)
+        key = f"{cname}/{cls}/{core}"
+        if prev and probe:
+            r = run_history(cname, st["arr"], st["mt"], st["rows"], [raw], case, probe=False)
+            if r[0] == "fail" and r[1] == key:
+                return ("fail", key, msg)                       # fails on a new object too: history irrelevant
+            for p in ops[:len(prev)] if len(prev) > 1 else []:  # one earlier op that is enough to reproduce it
+                r = run_history(cname, arr, mt, rows, [p, raw], case, probe=False)
+                if r[0] == "fail" and r[1].startswith(key + " after "):
+                    return ("fail", r[1], msg)
+        return ("fail", key + (f" after {prev}" if prev else ""), msg)
 
     for raw in ops:
         cls = "ArrayAlignment" if st["arr"] else "Alignment"
@@ -890,8 +892,7 @@ def gen_coll(tier, seed):
             yield [new, mt, rows, [rnd.choice(COLL_OPS) for _ in range(3)]]
 
 
-def contract_coll(case):
-    new, mt, rows, ops = case
+def run_coll(case, new, mt, rows, ops, probe=True):
     tag = "new" if new else "old"
     try:
         x = build_coll(rows, mt, new)
@@ -900,8 +901,20 @@ def contract_coll(case):
             return ("skip",)
         return ("fail", f"coll/{tag}/construct/raises {type(e).__name__}", f"{case}: {e}")
     cur, cur_mt, prev = [list(r) for r in rows], mt, []
+
+    def fail(core, msg):
+        key = f"coll/{tag}/{core}"
+        if prev and probe:
+            r = run_coll(case, new, cur_mt, cur, [op], probe=False)
+            if r[0] == "fail" and r[1] == key:
+                return ("fail", key, msg)
+            for p in ops[:len(prev)] if len(prev) > 1 else []:
+                r = run_coll(case, new, mt, rows, [p, op], probe=False)
+                if r[0] == "fail" and r[1].startswith(key + " after "):
+                    return ("fail", r[1], msg)
+        return ("fail", key + (f" after {prev}" if prev else ""), msg)
+
     for op in ops:
-        after = f" after {prev}" if prev else ""
         kind = op_kind(op) if op[0] != "degap" else "degap"
         try:
             exp, exp_mt = coll_spec(cur, cur_mt, op)
@@ -914,26 +927,29 @@ def contract_coll(case):
         except Exception as e:
             if not exp or any(len(s) == 0 for _, s in exp):
                 return ("skip",)      # an empty collection / empty sequence may be refused
-            return ("fail", f"coll/{tag}/{kind}/raises {type(e).__name__}{after}",
-                    f"{case} (op {op}): {type(e).__name__}: {str(e)[:200]}")
+            return fail(f"{kind}/raises {type(e).__name__}", f"{case} (op {op}): {type(e).__name__}: {str(e)[:200]}")
         if not exp:
             if y is None or (hasattr(y, "__len__") and not isinstance(y, str) and not getattr(y, "names", None)):
                 return ("ok", False)
-            return ("fail", f"coll/{tag}/{kind}/rows-from-nothing{after}", f"{case}: {y!r}")
+            return fail(f"{kind}/rows-from-nothing", f"{case}: {y!r}")
         if y is None or isinstance(y, dict):
-            return ("fail", f"coll/{tag}/{kind}/returns-nothing{after}", f"{case} (op {op}): {y!r}, expected {exp}")
+            return fail(f"{kind}/returns-nothing", f"{case} (op {op}): {y!r}, expected {exp}")
         got = [[n, s] for n, s in y.to_dict().items()]
         got_mt = getattr(y.moltype, "label", None) or getattr(y.moltype, "name", None)
         if got != exp or list(y.names) != [n for n, _ in exp]:
-            return ("fail", f"coll/{tag}/{kind}/rows{after}",
-                    f"{case} (op {op}): rows {got} names {list(y.names)} expected {exp}")
+            return fail(f"{kind}/rows", f"{case} (op {op}): rows {got} names {list(y.names)} expected {exp}")
         if got_mt != exp_mt:
-            return ("fail", f"coll/{tag}/{kind}/moltype{after}", f"{case} (op {op}): moltype {got_mt} expected {exp_mt}")
+            return fail(f"{kind}/moltype", f"{case} (op {op}): moltype {got_mt} expected {exp_mt}")
         if [[n, s] for n, s in x.to_dict().items()] != cur:
-            return ("fail", f"coll/{tag}/{kind}/receiver-changed{after}", f"{case} (op {op}): {x.to_dict()} was {cur}")
+            return fail(f"{kind}/receiver-changed", f"{case} (op {op}): {x.to_dict()} was {cur}")
         x, cur, cur_mt = y, exp, exp_mt
         prev.append(kind)
     return ("ok", any(len(s) for _, s in cur))
+
+
+def contract_coll(case):
+    new, mt, rows, ops = case
+    return run_coll(case, new, mt, rows, ops)
 
 
 # ------------------------------------------------------------------------------------------------ registry
